@@ -11,6 +11,7 @@ from .values import (U, IntS, BoolS, MS, TRUTHY, NONE_U, V, VInt, VBool, VNone,
                      VU, VRef, VOpt, VTuple, VList, VDict, VIter, VFunc,
                      VStream, VModule, VExc, sort_of_shape, wrap)
 from . import source as S
+from .contracts import Clause
 
 
 HASHABLE = z3.Function("HASHABLE", U, BoolS)
@@ -139,6 +140,10 @@ class State:
     def fresh(self, name, sort):
         self.ctr += 1
         return z3.Const(f"{name}!{self.ctr}", sort)
+
+    def fresh_id(self):
+        self.ctr += 1
+        return self.ctr
 
     def choose(self, k, label=""):
         idx = len(self.decisions)
@@ -788,7 +793,8 @@ class Engine:
     # ======================================================================
     # obligations
     # ======================================================================
-    def oblige(self, st: State, kind, line, goal, props=None, label=""):
+    def oblige(self, st: State, kind, line, goal, props=None, label="",
+               extra_hyps=()):
         goal = z3.simplify(goal) if z3.is_expr(goal) else z3.BoolVal(bool(goal))
         if z3.is_true(goal):
             # still count trivially-true obligations: they were generated
@@ -807,10 +813,39 @@ class Engine:
             return
         self._obl_keys.add(key)
         ob = Obligation(name + f"#p{pathid}" + (f"~{o}" if o else ""),
-                        list(st.pc), goal,
+                        list(st.pc) + list(extra_hyps), goal,
                         list(props if props is not None else fc.props),
                         fc.key, kind, line, pathid)
         self.obligations.append(ob)
+
+    def reveal_hyps(self, st, cl):
+        """definitions of the hidden formulas a clause asks to see"""
+        out = []
+        for nm in getattr(cl, "reveal", ()) or ():
+            hid = st.ghost.get("__hidden", {})
+            if nm not in hid:
+                continue        # nothing was hidden under this name here
+            ent = hid[nm]
+            for p_, f_ in (ent if isinstance(ent, list) else [ent]):
+                out.append(p_ == f_)
+        return out
+
+    def assume_clause(self, st, cl, formula):
+        """assume a clause, behind its `hide` name if it has one"""
+        nm = getattr(cl, "hide", None)
+        if not nm:
+            st.assume(formula)
+            return
+        hid = st.ghost.setdefault("__hidden", {})
+        p_ = st.fresh("hid_" + nm, z3.BoolSort())
+        ent = hid.get(nm)
+        if ent is None:
+            hid[nm] = [(p_, formula)]
+        elif isinstance(ent, list):
+            ent.append((p_, formula))
+        else:
+            hid[nm] = [ent, (p_, formula)]
+        st.assume(p_)
 
     def require(self, st: State, cond, exc_cls, line, info=""):
         """Python raises exc_cls when cond is false."""
@@ -2078,9 +2113,32 @@ class Engine:
             exits["normal"] += 1
             st.ghost["result"] = result
             st.locals["result"] = result
+            gdefs = [cl for cl in fc.ensures if getattr(cl, "ghostdef", False)]
+            if gdefs:
+                # the function's own definition of the ghost label update
+                self.lib.ext.havoc_ghosts(st, ["cert"], False)
+                # each definition is kept behind a propositional name GD<i>
+                # (true); a proof step that needs it says `reveal GD<i>:`
+                for gi, cl in enumerate(gdefs):
+                    cl2 = Clause(cl.text, cl.props)
+                    cl2.hide = f"GD{gi}"
+                    self.assume_clause(st, cl2, self.spec_bool(st, cl))
+            for k, cl in enumerate(fc.exit_lemmas):
+                t = self.spec_bool(st, cl)
+                self.oblige(st, "exit-lemma", line, t, cl.props or None,
+                            label=str(k),
+                            extra_hyps=self.reveal_hyps(st, cl))
+                st.ghost["__axinst_off"] = True
+                try:
+                    st.assume(self.spec_bool(st, cl))
+                finally:
+                    st.ghost["__axinst_off"] = False
             for k, cl in enumerate(fc.ensures):
+                if getattr(cl, "ghostdef", False):
+                    continue
                 self.oblige(st, "post", line, self.spec_bool(st, cl),
-                            cl.props, label=str(k))
+                            cl.props, label=str(k),
+                            extra_hyps=self.reveal_hyps(st, cl))
             self.frame_obligations(st, fc, line)
         elif kind == "abandon":
             exits["abandon"] += 1
@@ -2132,6 +2190,17 @@ class Engine:
                                  st.ghost["DISK"][pq] == disk[pq])), None)
         if fc.modifies == ["*"]:
             return
+        # ghost groups not named in `modifies` are unchanged
+        for grp, names in (("fs", ("DSTATE", "DISK")), ("cert", ("CERT",))):
+            if "ghost:" + grp in fc.modifies:
+                continue
+            for nm in names:
+                if nm not in st.ghost or nm not in st.old["ghost"]:
+                    continue
+                a0, a1 = st.old["ghost"][nm], st.ghost[nm]
+                if a0 is a1 or z3.eq(a0, a1):
+                    continue
+                self.oblige(st, f"frame-ghost({grp})", line, a1 == a0, None)
         mods = {}
         for m in fc.modifies:
             if m.startswith("ghost:"):
